@@ -40,11 +40,18 @@ def run(chk):
     if chk.want("R04.8"):
         from .c14 import crystal_memo_rule
         crystal_memo_rule(chk, "R04.8")
+        # the molecules are the ones for the bonding criterion the caller asks for, whatever was asked before (audit C04/3)
+        from .. import memo as MEMO
+        MEMO.check_memo_params(chk, "R04.8", CR, "Crystal", MEMO.instance_memos(cr, "Crystal"))
     chk.rule("R04.10", "the atoms the molecules are built from are the labelled images of their parent sites: block i of the orbit holds s_i(coordinates) "
                        "next to s_i's own code, for every operation once (= C01 R01.1)", 6)
     if chk.want("R04.10"):
         from ..inherit import inherit
         inherit(chk, "R04.10", "c01", ["R01.1"])
+    chk.rule("R04.11", "the unit-cell atoms the molecules are built from are the distinct sites of the cell: wrap before merge, periodic and distance-based coincidence, occupancy-conserving merge (= C01 R01.3, R01.4)", 4)
+    if chk.want("R04.11"):
+        from ..inherit import inherit
+        inherit(chk, "R04.11", "c01", ["R01.3", "R01.4"])
     chk.assume("the greedy choice of symmetry-unique molecules, Z' * |G| and all geometry (bonding distances) are not decided")
     chk.assume("scipy connected_components labels partition the nodes; breadth_first_order returns each node's predecessor")
 
